@@ -4,7 +4,9 @@
    which a record writer reports an error (CSV schema change); Example C20_nonvacuous shows the hypotheses are met by
    a real eviction history.  The theorems C20_unrepaired_manager_* are about the manager as it was before the repair
    (Model.run / Model.final): they state what the repair removed and are not tied to the implementation any more. *)
-From Miller Require Import Base.Record C20.Model C20.Proofs C20.ProofsR.
+From Miller Require Import Base.Bytes Base.Record.
+From Miller Require Import C01.Model C01.ModelJson C01.ModelXtab C01.ModelLite C01.ModelPprint C01.ModelMd C01.ProofsTsv C01.ProofsCsv C01.ProofsDkvp C01.ProofsJson C01.ProofsXtab C01.ProofsLite C01.ProofsPprint.
+From Miller Require Import Base.Bytes Base.Record C20.Model C20.Proofs C20.ProofsR C20.Generic C20.Writers C20.ProofsW C20.WritersYaml C20.ProofsChain.
 Open Scope list_scope.
 
 (* LRU invariant, every history, every capacity: no target open twice or suspended twice, never more than max(c,1)
@@ -173,3 +175,234 @@ a
 " /\
   r_err (runR MAppend 3 FJson ops empty_store) = false.
 Proof. vm_compute. repeat split; reflexivity. Qed.
+
+(* ================================================================ the manager over ANY streaming record writer (Generic.v), and
+   the writers of pkg/output as streaming machines (Writers.v: CSV, TSV, csvlite, JSON with / without the outer list and
+   --jvstack, JSON Lines, DKVP, NIDX, XTAB, PPRINT incl. --barred-output --right --headerless-pprint-output, markdown streaming
+   and --omd-aligned).  Tied to the real manager with the real writers and options by HarnessG.chkG (byte-for-byte, histories
+   with heterogeneous records, also beyond the capacity). *)
+
+(* ONE document per target for EVERY writer that is a state machine (state, step, end-of-stream text): any history of
+   (target, record | text) writes, any number of targets, any capacity, modes > >> | *)
+Theorem C20_one_document_any_writer :
+  forall (W : swriter) md c ops fs0, g_err (runG W md c ops fs0) = false ->
+  forall t,
+  (touched t ops = true ->
+   exists d, sdoc W (events_of t ops) = Some d /\ finalG W md c ops fs0 t = gbase md fs0 t ++ d) /\
+  (touched t ops = false -> finalG W md c ops fs0 t = fs0 t).
+Proof. exact one_document_generic. Qed.
+Print Assumptions C20_one_document_any_writer.
+
+(* the manager reports an error only if ONE writer over some target's own events does (CSV / TSV schema change): eviction
+   never causes an error *)
+Theorem C20_errors_are_the_writers :
+  forall (W : swriter) md c ops fs0, (forall t, sdoc W (events_of t ops) <> None) -> g_err (runG W md c ops fs0) = false.
+Proof. exact no_error_when_documents_exist. Qed.
+Print Assumptions C20_errors_are_the_writers.
+
+(* each streaming writer produces exactly C01's document for the records it is given *)
+Theorem C20_streaming_writers_are_C01_documents :
+  (forall hl qa crlf comma recs, sdoc (W_csv hl qa crlf comma) (map ERec recs) = write_csv hl qa crlf comma recs) /\
+  (forall hl crlf recs, sdoc (W_tsv hl crlf) (map ERec recs) = write_tsv hl crlf recs) /\
+  (forall ofs hl crlf recs, sdoc (W_csvlite ofs hl crlf) (map ERec recs) = Some (write_csvlite ofs hl crlf recs)) /\
+  (forall ml recs, sdoc (W_json_wrap ml) (map ERec recs) = Some (write_json ml true recs)) /\
+  (forall ml recs, sdoc (W_json_nowrap ml) (map ERec recs) = Some (write_json ml false recs)) /\
+  (forall ofs ops crlf recs, sdoc (W_dkvp ofs ops crlf) (map ERec recs) = Some (write_dkvp ofs ops crlf recs)) /\
+  (forall ofs crlf recs, sdoc (W_nidx ofs crlf) (map ERec recs) = Some (write_nidx ofs crlf recs)) /\
+  (forall w ops right recs, sdoc (W_xtab w ops right) (map ERec recs) = Some (write_xtab w ops right recs)) /\
+  (forall w right barred hl crlf recs, sdoc (W_pprint w right barred hl crlf) (map ERec recs) = Some (write_pprint_g w right barred hl crlf recs)) /\
+  (forall w crlf recs, sdoc (W_md crlf) (map ERec recs) = Some (write_markdown w false crlf recs)) /\
+  (forall w crlf recs, sdoc (W_mda w (ors_of crlf)) (map ERec recs) = Some (write_markdown w true crlf recs)).
+Proof.
+  exact (conj W_csv_doc (conj W_tsv_doc (conj W_csvlite_doc (conj W_json_wrap_doc (conj W_json_nowrap_doc (conj W_dkvp_doc
+        (conj W_nidx_doc (conj W_xtab_doc (conj W_pprint_doc (conj W_md_doc W_mda_doc')))))))))).
+Qed.
+Print Assumptions C20_streaming_writers_are_C01_documents.
+
+(* per writer: every touched target holds  base ++ <format document of exactly the records routed to it, in stream order> *)
+Theorem C20_csv_target_is_one_document :
+  forall hl qa crlf comma md c ops fs0,
+  records_only ops = true -> g_err (runG (W_csv hl qa crlf comma) md c ops fs0) = false ->
+  forall t,
+  (touched t ops = true -> exists d, write_csv hl qa crlf comma (routed t ops) = Some d /\
+                                     finalG (W_csv hl qa crlf comma) md c ops fs0 t = gbase md fs0 t ++ d) /\
+  (touched t ops = false -> finalG (W_csv hl qa crlf comma) md c ops fs0 t = fs0 t).
+Proof. exact T_csv. Qed.
+Print Assumptions C20_csv_target_is_one_document.
+
+Theorem C20_tsv_target_is_one_document :
+  forall hl crlf md c ops fs0,
+  records_only ops = true -> g_err (runG (W_tsv hl crlf) md c ops fs0) = false ->
+  forall t,
+  (touched t ops = true -> exists d, write_tsv hl crlf (routed t ops) = Some d /\ finalG (W_tsv hl crlf) md c ops fs0 t = gbase md fs0 t ++ d) /\
+  (touched t ops = false -> finalG (W_tsv hl crlf) md c ops fs0 t = fs0 t).
+Proof. exact T_tsv. Qed.
+Print Assumptions C20_tsv_target_is_one_document.
+
+(* JSON with the outer list: one bracket pair, commas between the records; the writer is total, so no error hypothesis *)
+Theorem C20_json_target_is_one_document :
+  forall ml md c ops fs0, records_only ops = true ->
+  forall t, touched t ops = true ->
+  finalG (W_json_wrap ml) md c ops fs0 t = gbase md fs0 t ++ write_json ml true (routed t ops).
+Proof.
+  exact (fun ml md c ops fs0 Hr t Ht =>
+    match proj1 (T_json_wrap ml md c ops fs0 Hr (json_wrap_total ml md c ops fs0 Hr) t) Ht with
+    | ex_intro _ d (conj Hd Hf) => eq_trans Hf (f_equal (fun x => gbase md fs0 t ++ x) (eq_sym (f_equal (fun o => match o with Some y => y | None => d end) Hd)))
+    end).
+Qed.
+Print Assumptions C20_json_target_is_one_document.
+
+(* PPRINT: the batch retained by the writer survives suspension; blocks of equal keys, a blank line between blocks *)
+Theorem C20_pprint_target_is_one_document :
+  forall w right barred hl crlf md c ops fs0, records_only ops = true ->
+  forall t, touched t ops = true ->
+  finalG (W_pprint w right barred hl crlf) md c ops fs0 t = gbase md fs0 t ++ write_pprint_g w right barred hl crlf (routed t ops).
+Proof.
+  exact (fun w right barred hl crlf md c ops fs0 Hr t Ht =>
+    match proj1 (T_pprint w right barred hl crlf md c ops fs0 Hr (pprint_total w right barred hl crlf md c ops fs0 Hr) t) Ht with
+    | ex_intro _ d (conj Hd Hf) => eq_trans Hf (f_equal (fun x => gbase md fs0 t ++ x) (eq_sym (f_equal (fun o => match o with Some y => y | None => d end) Hd)))
+    end).
+Qed.
+Print Assumptions C20_pprint_target_is_one_document.
+
+Theorem C20_xtab_target_is_one_document :
+  forall w o right md c ops fs0, records_only ops = true ->
+  forall t, touched t ops = true ->
+  finalG (W_xtab w o right) md c ops fs0 t = gbase md fs0 t ++ write_xtab w o right (routed t ops).
+Proof.
+  exact (fun w o right md c ops fs0 Hr t Ht =>
+    match proj1 (T_xtab w o right md c ops fs0 Hr (xtab_total w o right md c ops fs0 Hr) t) Ht with
+    | ex_intro _ d (conj Hd Hf) => eq_trans Hf (f_equal (fun x => gbase md fs0 t ++ x) (eq_sym (f_equal (fun o => match o with Some y => y | None => d end) Hd)))
+    end).
+Qed.
+Print Assumptions C20_xtab_target_is_one_document.
+
+(* csvlite: a schema change inside one target is a blank line and a new header (not an error), also across suspensions *)
+Theorem C20_csvlite_target_is_one_document :
+  forall ofs hl crlf md c ops fs0, records_only ops = true ->
+  forall t, touched t ops = true ->
+  finalG (W_csvlite ofs hl crlf) md c ops fs0 t = gbase md fs0 t ++ write_csvlite ofs hl crlf (routed t ops).
+Proof.
+  exact (fun ofs hl crlf md c ops fs0 Hr t Ht =>
+    match proj1 (T_csvlite ofs hl crlf md c ops fs0 Hr (csvlite_total ofs hl crlf md c ops fs0 Hr) t) Ht with
+    | ex_intro _ d (conj Hd Hf) => eq_trans Hf (f_equal (fun x => gbase md fs0 t ++ x) (eq_sym (f_equal (fun o => match o with Some y => y | None => d end) Hd)))
+    end).
+Qed.
+Print Assumptions C20_csvlite_target_is_one_document.
+
+Theorem C20_markdown_target_is_one_document :
+  forall w crlf md c ops fs0, records_only ops = true ->
+  forall t, touched t ops = true ->
+  finalG (W_md crlf) md c ops fs0 t = gbase md fs0 t ++ write_markdown w false crlf (routed t ops).
+Proof.
+  exact (fun w crlf md c ops fs0 Hr t Ht =>
+    match proj1 (T_md w crlf md c ops fs0 Hr (md_total crlf md c ops fs0 Hr) t) Ht with
+    | ex_intro _ d (conj Hd Hf) => eq_trans Hf (f_equal (fun x => gbase md fs0 t ++ x) (eq_sym (f_equal (fun o => match o with Some y => y | None => d end) Hd)))
+    end).
+Qed.
+Print Assumptions C20_markdown_target_is_one_document.
+
+(* well-formed = reads back: composition with C01's round-trip theorems -- each target written with > or | reads back as
+   exactly the records routed to it, in order (same hypotheses on the records as C01's theorem for the format) *)
+Theorem C20_csv_target_reads_back :
+  forall qa crlf comma lazy dedupe ragged md c ops fs0,
+  is_append md = false -> records_only ops = true -> g_err (runG (W_csv false qa crlf comma) md c ops fs0) = false ->
+  forall t, touched t ops = true -> wf_csv crlf comma (routed t ops) = true ->
+  read_csv false lazy dedupe ragged comma (finalG (W_csv false qa crlf comma) md c ops fs0 t) = Some (routed t ops).
+Proof. exact R_csv. Qed.
+Print Assumptions C20_csv_target_reads_back.
+
+Theorem C20_tsv_target_reads_back :
+  forall crlf dedupe ragged md c ops fs0,
+  is_append md = false -> records_only ops = true -> g_err (runG (W_tsv false crlf) md c ops fs0) = false ->
+  forall t, touched t ops = true -> wf_tsv (routed t ops) = true ->
+  read_tsv dedupe ragged (finalG (W_tsv false crlf) md c ops fs0 t) = Some (routed t ops).
+Proof. exact R_tsv. Qed.
+Print Assumptions C20_tsv_target_reads_back.
+
+Theorem C20_json_target_reads_back :
+  forall ml md c ops fs0,
+  is_append md = false -> records_only ops = true ->
+  forall t, touched t ops = true -> forallb (fun r => nodupb (keys r)) (routed t ops) = true ->
+  read_json_ref (finalG (W_json_wrap ml) md c ops fs0 t) = Some (routed t ops).
+Proof. exact (fun ml md c ops fs0 Hm Hr => R_json ml true md c ops fs0 Hm Hr (json_wrap_total ml md c ops fs0 Hr)). Qed.
+Print Assumptions C20_json_target_reads_back.
+
+Theorem C20_pprint_target_reads_back :
+  forall w right crlf dedupe ragged md c ops fs0,
+  is_append md = false -> records_only ops = true ->
+  forall t, touched t ops = true -> wf_pprint crlf (routed t ops) = true ->
+  read_pprint dedupe ragged (finalG (W_pprint w right false false crlf) md c ops fs0 t) = Some (routed t ops).
+Proof. exact (fun w right crlf dedupe ragged md c ops fs0 Hm Hr => R_pprint w right crlf dedupe ragged md c ops fs0 Hm Hr (pprint_total w right false false crlf md c ops fs0 Hr)). Qed.
+Print Assumptions C20_pprint_target_reads_back.
+
+Theorem C20_csvlite_target_reads_back :
+  forall ch crlf dedupe ragged md c ops fs0,
+  is_append md = false -> records_only ops = true ->
+  forall t, touched t ops = true -> wf_lite ch (routed t ops) = true ->
+  read_csvlite [ch] dedupe ragged (finalG (W_csvlite [ch] false crlf) md c ops fs0 t) = Some (routed t ops).
+Proof. exact (fun ch crlf dedupe ragged md c ops fs0 Hm Hr => R_csvlite ch crlf dedupe ragged md c ops fs0 Hm Hr (csvlite_total [ch] false crlf md c ops fs0 Hr)). Qed.
+Print Assumptions C20_csvlite_target_reads_back.
+
+Theorem C20_xtab_target_reads_back :
+  forall w ch dedupe md c ops fs0,
+  is_append md = false -> records_only ops = true ->
+  forall t, touched t ops = true -> wf_xtab ch (routed t ops) = true ->
+  read_xtab [ch] dedupe (finalG (W_xtab w [ch] false) md c ops fs0 t) = Some (routed t ops).
+Proof. exact (fun w ch dedupe md c ops fs0 Hm Hr => R_xtab w ch dedupe md c ops fs0 Hm Hr (xtab_total w [ch] false md c ops fs0 Hr)). Qed.
+Print Assumptions C20_xtab_target_reads_back.
+
+(* non-vacuous: PPRINT at capacity 1, target x revisited after its eviction with a DIFFERENT schema -- two blocks, one blank line,
+   the retained batch written at Close; csvlite likewise; JSON: one bracket pair *)
+Example C20_writers_nonvacuous :
+  let ops := [(B "x", ERec [(B "a", B "1")]); (B "y", ERec [(B "a", B "2")]); (B "x", ERec [(B "a", B "3")]);
+              (B "y", ERec [(B "b", B "4")]); (B "x", ERec [(B "b", B "55")])] in
+  let W := W_pprint (@List.length Ascii.ascii) false false false false in
+  g_err (runG W MWrite 1 ops (fun _ => [])) = false /\
+  finalG W MWrite 1 ops (fun _ => []) (B "x") = B "a
+1
+3
+
+b
+55
+" /\
+  finalG (W_csvlite (B ",") false false) MWrite 1 ops (fun _ => []) (B "y") = B "a
+2
+
+b
+4
+" /\
+  finalG (W_json_wrap false) MAppend 1 ops (bupd (B "x") (B "old
+") (fun _ => [])) (B "x") = B "old
+[
+{""a"": ""1""},
+{""a"": ""3""},
+{""b"": ""55""}
+]
+" /\
+  g_err (runG (W_csv false false false ","%char) MWrite 1 ops (fun _ => [])) = true.
+Proof. vm_compute. repeat split; reflexivity. Qed.
+
+(* YAML list mode (the default --oyaml): the writer buffers every record and marshals the sequence at end of stream, so ALL of a
+   target's bytes are owed at Close(), also by handlers that were suspended (evicted) and never used again: each target holds
+   base ++ marshal(exactly the records routed to it, in order), for every marshalling function *)
+Theorem C20_yaml_list_target_is_one_document :
+  forall (marshal : list record -> bytes) md c ops fs0, records_only ops = true ->
+  forall t, touched t ops = true ->
+  finalG (W_yaml_list marshal) md c ops fs0 t = gbase md fs0 t ++ marshal (routed t ops).
+Proof.
+  exact (fun marshal md c ops fs0 Hr t Ht =>
+    let Hd := W_yaml_list_doc marshal in
+    let He := total_writer_no_error (W_yaml_list marshal) (fun recs => Some (marshal recs)) Hd md c ops fs0 Hr (fun recs H => match H with eq_refl => I end) in
+    match proj1 (target_is_one_document (W_yaml_list marshal) (fun recs => Some (marshal recs)) Hd md c ops fs0 Hr He t) Ht with
+    | ex_intro _ d (conj Hdd Hf) => eq_trans Hf (f_equal (fun x => gbase md fs0 t ++ x) (eq_sym (f_equal (fun o => match o with Some y => y | None => d end) Hdd)))
+    end).
+Qed.
+Print Assumptions C20_yaml_list_target_is_one_document.
+
+(* several fan-out stages (tee verb first, then tee verbs / put 'tee > ...') upstream of head -n: every one of them receives
+   EVERY record, the main output is the first n records.  (Flag-propagation abstraction, as C20_main_stream_continues_partial.) *)
+Theorem C20_fanouts_before_early_exit_partial :
+  forall k n cut recs, run_chain (repeat VTee (S k) ++ [VHead n]) cut recs = (repeat recs (S k), firstn n recs).
+Proof. exact fanouts_before_head. Qed.
+Print Assumptions C20_fanouts_before_early_exit_partial.
